@@ -81,5 +81,19 @@ def read_op(ctx, fnpath, params, depth=8):
     ctx.counts['call_sites'] += len([e for e in ev.events if e.kind == 'call'])
     r = ret
     for em in ems:
+        # is the emission's own Result handed on (returned, mapped or `?`-propagated)?
+        em.propagated = any(t == em.ev.term for t in S.subterms(ret)) or any(e.kind == 'try' and e.term[1] == em.ev.term for e in ev.events) \
+            or S.show(em.ev.term) in S.show(ret)
         r = S.replace(r, em.ev.term, ('var', 'REPLY' if em.sink == 'call' else 'SINK', 0))
-    return ems, r, ev.events
+    return ems, canon_ret(r), ev.events
+
+
+def canon_ret(r):
+    """`x.map(|v| body)` and `let v = x?; Ok(body)` return the same thing: canonical form Ok(body[v := x?])."""
+    if r is not None and r[0] == 'call' and r[1] == 'std::result::Result::map' and len(r[2]) == 2 and r[2][1][0] == 'closure':
+        x, clo = r[2]
+        body = clo[3]
+        for nm, pid in clo[2]:
+            body = S.replace(body, ('var', nm, pid), ('try', x))
+        return ('call', 'Ok', (body,), ())
+    return r
